@@ -10,12 +10,12 @@ import (
 
 func init() {
 	register(&Property{
-		ID:        "C38",
-		Roots:     []string{"gadget"},
-		Technique: "must-call on every accepting path of validateVolume and its callers; accumulator provenance and sibling agreement between validateCrossVolumeStructure and OnDiskStructsFromGadget (SSA); per-iteration gates in layOutStructureContent (loop latch gating on the CFG); unsignedness of quantity.Offset/Size (types)",
+		ID:          "C38",
+		Roots:       []string{"gadget"},
+		Technique:   "must-call on every accepting path of validateVolume and its callers; accumulator provenance and sibling agreement between validateCrossVolumeStructure and OnDiskStructsFromGadget (SSA); per-iteration gates in layOutStructureContent (loop latch gating on the CFG); unsignedness of quantity.Offset/Size (types)",
 		Explanation: "Structural necessary conditions of 'accepted gadget volumes lay out into disjoint structures' (the arithmetic over all volume definitions is not decided): (R1) validateVolume accepts only with the verdict of validateCrossVolumeStructure on the same volume, and every caller fails when it fails; (R2) validateCrossVolumeStructure tracks the end of the previous structure as offset+Size (explicit offset) or previous end+Size (implicit), refuses an explicit offset below it, and OnDiskStructsFromGadget - which places the structures - advances by the same field (Size) and starts each structure at the explicit offset or the running end; (R3) layOutStructureContent checks on every iteration that the content placed ends inside the structure (the check gates the loop's back edge and exit), places content at structure start + offset, and after sorting refuses content starting before the end of the preceding one; (R4) offsets and sizes are unsigned quantities, so 'non-negative offset' holds by type.",
-		NotDecided: "absence of overflow in offset+size; min-size/partial-size volumes after installer finalisation (ApplyInstallerVolumesToGadget) beyond the validateVolume call; filesystem content.",
-		Run:        runC38,
+		NotDecided:  "absence of overflow in offset+size; min-size/partial-size volumes after installer finalisation (ApplyInstallerVolumesToGadget) beyond the validateVolume call; filesystem content.",
+		Run:         runC38,
 	})
 }
 
@@ -310,6 +310,73 @@ func runC38(c *Ctx) {
 		} else {
 			c.Undecided(pkg+".layOutStructureContent#sorted-before-overlap-check", lo.Pos(), "expected one sort.Sort call")
 		}
+	}
+
+	// ---- R5
+	c.Rule("C38-R5", "W", "EnsureVolumeCompatibility: every iteration that records where a structure is advances the 'previous structure' tracker used to place offset-less bare structures", 2)
+	evc := P.Func(pkg + ".EnsureVolumeCompatibility")
+	var hdrLoops []*RangeLoop
+	for _, rl := range LoopsOver(evc, VField(P.Field(pkg+".Volume.Structure"))) {
+		hdrLoops = append(hdrLoops, rl)
+	}
+	nRec := 0
+	for _, rl := range hdrLoops {
+		// placements recorded in this loop
+		var recs []*ssa.MapUpdate
+		for _, b := range evc.Blocks {
+			if rl.Body == nil || !rl.Body.Dominates(b) {
+				continue
+			}
+			for _, in := range b.Instrs {
+				if mu, ok := in.(*ssa.MapUpdate); ok {
+					if pt, isP := mu.Value.Type().(*types.Pointer); isP && types.Identical(pt.Elem(), P.NamedType(pkg+".OnDiskStructure")) {
+						recs = append(recs, mu)
+					}
+				}
+			}
+		}
+		if len(recs) == 0 {
+			continue
+		}
+		// the loop-carried trackers: header phis other than the range index
+		var trackers []*ssa.Phi
+		for _, in := range rl.Header.Instrs {
+			if ph, ok := in.(*ssa.Phi); ok && ph != rl.Index && ssa.Value(ph) != rl.Index {
+				if bt, isB := ph.Type().Underlying().(*types.Basic); isB && bt.Kind() == types.Int {
+					continue // the range index
+				}
+				trackers = append(trackers, ph)
+			}
+		}
+		if len(trackers) == 0 {
+			c.Undecided(pkg+".EnsureVolumeCompatibility#tracker", evc.Pos(), "no loop-carried 'previous structure' value found although offset-less structures are placed after it")
+			continue
+		}
+		for _, mu := range recs {
+			nRec++
+			okAdv := true
+			where := ""
+			for _, ph := range trackers {
+				for i, pred := range rl.Header.Preds {
+					if !rl.Body.Dominates(pred) {
+						continue // loop entry
+					}
+					// is this back edge reachable from the recording without passing the header?
+					r := ReachQ{Fn: evc, From: LocOf(mu), CutInstr: func(in ssa.Instruction) bool { return in.Block() == rl.Header }, SinkEdge: func(b *ssa.BasicBlock, s int) bool { return b == pred && b.Succs[s] == rl.Header }}.Run()
+					if !r.Found {
+						continue
+					}
+					if Strip(ph.Edges[i]) == ssa.Value(ph) {
+						okAdv = false
+						where = c.P.Pos(mu.Pos())
+					}
+				}
+			}
+			c.Check(okAdv, fmt.Sprintf("%s.EnsureVolumeCompatibility#placement-advances-tracker#%d", pkg, nRec), mu.Pos(), "the tracker is updated in the iteration that records a placement", "a structure is recorded in the gadget-to-disk map ("+where+") but the 'previous structure' value carried to the next iteration is left unchanged: the next offset-less bare structure is placed on top of it")
+		}
+	}
+	if nRec == 0 {
+		c.Undecided(pkg+".EnsureVolumeCompatibility#placements", evc.Pos(), "no placement recorded in a loop over the gadget structures")
 	}
 
 	// ---- R4
